@@ -1,0 +1,181 @@
+//go:build verif
+
+package mp4
+
+// Property C02 (agent c02c): containers with extra header fields.
+
+// ---------------------------------------------------------------- stsd
+// Children are appended by AddChild (stsd.go:79) from decoded boxes (stsd.go:116, stsd.go:143).
+//@ pred boxOK@StsdBox(b *StsdBox) = kidsOK(b.Children)
+
+//@ func (*StsdBox).EncodeSW
+//@   loop 1 invariant idx(1) <= len(s.Children)
+//@   loop 1 invariant adv(sw, 16 + int(sizeSum(s.Children, idx(1))))
+//@ func (*StsdBox).Size
+//@   inline
+
+// ---------------------------------------------------------------- meta
+// Children are appended by AddChild (meta.go:47) from decoded boxes (meta.go:85) or from CreateMetaBox (meta.go:37).
+// FINDING: !b.isQuickTime is NOT established by the decoder (meta.go:70 sets isQuickTime = true when the payload starts
+// with "hdlr"); EncodeSW (meta.go:136) writes version+flags unconditionally whereas Size() (meta.go:100) subtracts the 4
+// bytes: for a QuickTime meta atom EncodeSW writes Size()+4 bytes. Needed for the rest of the proof.
+// (repaired by a fix: commit: EncodeSW now writes version and flags only for ISO meta boxes)
+//@ pred boxOK@MetaBox(b *MetaBox) = kidsOK(b.Children)
+
+//@ func (*MetaBox).Size
+//@   inline
+//@ func (*MetaBox).EncodeSW
+//@   loop 1 invariant idx(1) <= len(b.Children)
+//@   loop 1 invariant adv(sw, 12 + int(sizeSum(b.Children, idx(1))))
+
+// ---------------------------------------------------------------- moof
+// Children are appended by AddChild (moof.go:83) from decoded boxes (moof.go:40, moof.go:58).
+//@ pred boxOK@MoofBox(b *MoofBox) = kidsOK(b.Children)
+
+//@ func (*MoofBox).Size
+//@   inline
+//@ func (*MoofBox).EncodeSW
+//@   loop 1 invariant adv(sw, 0)
+//@   loop 2 invariant idx(2) <= len(m.Children)
+//@   loop 2 invariant adv(sw, 8 + int(sizeSum(m.Children, idx(2))))
+
+// ---------------------------------------------------------------- trep
+// Children are appended by AddChild (trep.go:21) from decoded boxes (trep.go:50).
+//@ pred boxOK@TrepBox(b *TrepBox) = kidsOK(b.Children)
+
+//@ func (*TrepBox).Size
+//@   inline
+//@ func (*TrepBox).EncodeSW
+//@   loop 1 invariant idx(1) <= len(b.Children)
+//@   loop 1 invariant adv(sw, 16 + int(sizeSum(b.Children, idx(1))))
+
+// ---------------------------------------------------------------- dref
+// Children are appended by AddChild (dref.go:34) from decoded boxes (dref.go:62, dref.go:88) or CreateDref (dref.go:28).
+//@ pred boxOK@DrefBox(b *DrefBox) = kidsOK(b.Children)
+
+//@ func (*DrefBox).Size
+//@   inline
+//@ func (*DrefBox).EncodeSW
+//@   loop 1 invariant idx(1) <= len(d.Children)
+//@   loop 1 invariant adv(sw, 16 + int(sizeSum(d.Children, idx(1))))
+
+// ---------------------------------------------------------------- evte
+// Children are appended by AddChild (eventmessage.go:74) from decoded boxes (eventmessage.go:55).
+//@ pred boxOK@EvteBox(b *EvteBox) = kidsOK(b.Children)
+
+//@ func (*EvteBox).Size
+//@   pure
+//@   ensures result == 16 + sizeSum(b.Children, len(b.Children))
+//@   assigns nothing
+//@   loop 1 invariant 0 <= idx(1) && idx(1) <= len(b.Children)
+//@   loop 1 invariant size == 16 + sizeSum(b.Children, idx(1))
+//@ func (*EvteBox).EncodeSW
+//@   loop 1 invariant idx(1) <= len(b.Children)
+//@   loop 1 invariant adv(sw, 16 + int(sizeSum(b.Children, idx(1))))
+
+// ---------------------------------------------------------------- stpp
+// Children are appended by AddChild (stpp.go:46) from decoded boxes (stpp.go:99).
+// nrMissingOptionalEndBytes is 0 in NewStppBox (stpp.go:33) and incremented at most twice from 0 in the decoder
+// (stpp.go:77, stpp.go:83); it is unexported and not written elsewhere.
+//@ pred boxOK@StppBox(b *StppBox) = kidsOK(b.Children) && b.nrMissingOptionalEndBytes <= 2
+
+//@ spec stppHdr(b *StppBox) uint64 = uint64(16 + len(b.Namespace) + 1) + uint64(len(b.SchemaLocation)) + 1 + uint64(len(b.AuxiliaryMimeTypes)) + 1 - uint64(b.nrMissingOptionalEndBytes)
+//@ func (*StppBox).Size
+//@   pure
+//@   ensures result == stppHdr(b) + sizeSum(b.Children, len(b.Children))
+//@   assigns nothing
+//@   loop 1 invariant 0 <= idx(1) && idx(1) <= len(b.Children)
+//@   loop 1 invariant totalSize == stppHdr(b) + sizeSum(b.Children, idx(1))
+// stppEnc: the header part in the order EncodeSW writes it (equal to stppHdr under boxOK; keeps the invariant free of the
+// case split on nrMissingOptionalEndBytes until the postcondition)
+//@ spec stppEnc(b *StppBox) int = 16 + (len(b.Namespace) + 1) + (len(b.SchemaLocation) + ite(b.nrMissingOptionalEndBytes < 2, 1, 0)) + (len(b.AuxiliaryMimeTypes) + ite(b.nrMissingOptionalEndBytes < 1, 1, 0))
+//@ func (*StppBox).EncodeSW
+//@   loop 1 invariant idx(1) <= len(b.Children)
+//@   loop 1 invariant adv(sw, stppEnc(b) + int(sizeSum(b.Children, idx(1))))
+
+// ---------------------------------------------------------------- wvtt
+// Children are appended by AddChild (wvtt.go:42) from decoded boxes (wvtt.go:71).
+//@ pred boxOK@WvttBox(b *WvttBox) = kidsOK(b.Children)
+
+//@ func (*WvttBox).Size
+//@   pure
+//@   ensures result == 16 + sizeSum(b.Children, len(b.Children))
+//@   assigns nothing
+//@   loop 1 invariant 0 <= idx(1) && idx(1) <= len(b.Children)
+//@   loop 1 invariant totalSize == 16 + sizeSum(b.Children, idx(1))
+//@ func (*WvttBox).EncodeSW
+//@   loop 1 invariant idx(1) <= len(b.Children)
+//@   loop 1 invariant adv(sw, 16 + int(sizeSum(b.Children, idx(1))))
+
+// ---------------------------------------------------------------- visual sample entry (avc1, hvc1, ...)
+// Children are appended by AddChild (visualsampleentry.go:84) from decoded boxes (visualsampleentry.go:136) or from
+// CreateVisualSampleEntryBox (visualsampleentry.go:55).
+// len(b.name) == 4: hdr.Name of a decoded header (visualsampleentry.go:99, hdrOK); RemoveEncryption copies frma.DataFormat
+// (visualsampleentry.go:274, boxOK@FrmaBox). NewVisualSampleEntryBox/CreateVisualSampleEntryBox/SetType take the name from
+// the caller (four-character code expected).
+// len(b.CompressorName) <= 31: decoder rejects a length byte > 31 (visualsampleentry.go:118) and reads exactly that many
+// bytes (visualsampleentry.go:121); CreateVisualSampleEntryBox uses a 20-character literal (visualsampleentry.go:51).
+// FINDING (API misuse only): CompressorName is an exported field; a value longer than 31 bytes makes EncodeSW write
+// 1+len+(31-len mod 256) payload bytes where Size() counts 32.
+//@ pred boxOK@VisualSampleEntryBox(b *VisualSampleEntryBox) = kidsOK(b.Children) && len(b.name) == 4 && len(b.CompressorName) <= 31
+
+//@ func (*VisualSampleEntryBox).Size
+//@   pure
+//@   ensures result == 86 + sizeSum(b.Children, len(b.Children))
+//@   assigns nothing
+//@   loop 1 invariant 0 <= idx(1) && idx(1) <= len(b.Children)
+//@   loop 1 invariant totalSize == 86 + sizeSum(b.Children, idx(1))
+//@ func (*VisualSampleEntryBox).EncodeSW
+//@   loop 1 invariant idx(1) <= len(b.Children)
+//@   loop 1 invariant adv(sw, 86 + int(sizeSum(b.Children, idx(1))))
+
+// ---------------------------------------------------------------- audio sample entry (mp4a, ac-3, ...)
+// Children are appended by AddChild (audiosamplentry.go:70) from decoded boxes (audiosamplentry.go:108, :144) or from
+// CreateAudioSampleEntryBox (audiosamplentry.go:50).
+// len(a.name) == 4: hdr.Name of a decoded header (audiosamplentry.go:82, :122, hdrOK); RemoveEncryption copies
+// frma.DataFormat (audiosamplentry.go:257, boxOK@FrmaBox); constructors/SetType take the four-character code from the caller.
+//@ pred boxOK@AudioSampleEntryBox(b *AudioSampleEntryBox) = kidsOK(b.Children) && len(b.name) == 4
+
+//@ func (*AudioSampleEntryBox).Size
+//@   pure
+//@   ensures result == 36 + sizeSum(a.Children, len(a.Children))
+//@   assigns nothing
+//@   loop 1 invariant 0 <= idx(1) && idx(1) <= len(a.Children)
+//@   loop 1 invariant totalSize == 36 + sizeSum(a.Children, idx(1))
+//@ func (*AudioSampleEntryBox).EncodeSW
+//@   loop 1 invariant idx(1) <= len(a.Children)
+//@   loop 1 invariant adv(sw, 36 + int(sizeSum(a.Children, idx(1))))
+
+// ---------------------------------------------------------------- silb (child of evte; not on the c02c list, UNFINISHED)
+// Size and the C02 postcondition of EncodeSW verify from these invariants; inv-pres of the adv invariant is left `unknown` by
+// all three solvers (three conditional writer steps per iteration combined with re-association of 64-bit sums; the same
+// goal with the recursive function replaced by constants is proved by cvc5 in 19 s, by z3 not within 60 s).
+//@ spec rec silbSum(es []SilbEntry, n int) uint64 = ite(n <= 0, uint64(0), silbSum(es, n-1) + uint64(len(es[n-1].SchemeIdURI) + 1 + len(es[n-1].Value) + 1 + 1))
+//@ func (*SilbBox).Size
+//@   pure
+//@   ensures result == 17 + silbSum(b.Schemes, len(b.Schemes))
+//@   assigns nothing
+//@   loop 1 invariant 0 <= idx(1) && idx(1) <= len(b.Schemes)
+//@   loop 1 invariant size == 16 + silbSum(b.Schemes, idx(1))
+//@ func (*SilbBox).EncodeSW
+//@   loop 1 invariant idx(1) <= len(b.Schemes)
+//@   loop 1 invariant adv(sw, 16 + int(silbSum(b.Schemes, idx(1))))
+
+// ---------------------------------------------------------------- stretch (NOT ACTIVE: kept as plain comments)
+// Decoders establish the non-children part of boxOK. With the frame assumption
+//     func DecodeBoxSR: assigns sr.(*bits.FixedSliceReader).pos, sr.(*bits.FixedSliceReader).err
+// the three contracts below verify (-kinds post,inv: 102 obligations, 0 failing). The frame clause itself cannot be checked
+// (the registry call inside DecodeBoxSR is havoc: schema boxDecoderSR has no assigns clause), and without it the call
+// DecodeBoxSR(pos, sr) in the child loop havocs the fields of the box under construction (inv-pres sat). Needed from the
+// owner of the schema: an assigns clause (reader position/error only) on boxDecoderSR and DecodeBoxSR.
+// kidsOK of the decoded children additionally needs "DecodeBoxSR returns a box satisfying boxOK" (all decoders).
+//
+//   func DecodeStppSR
+//     ensures[C02] result1 == nil ==> result0.(*StppBox).nrMissingOptionalEndBytes <= 2
+//     loop 1 invariant b.nrMissingOptionalEndBytes <= 2
+//   func DecodeVisualSampleEntrySR
+//     ensures[C02] result1 == nil ==> len(result0.(*VisualSampleEntryBox).name) == 4 && len(result0.(*VisualSampleEntryBox).CompressorName) <= 31
+//     loop 1 invariant len(b.name) == 4 && len(b.CompressorName) <= 31
+//   func DecodeAudioSampleEntrySR
+//     ensures[C02] result1 == nil ==> len(result0.(*AudioSampleEntryBox).name) == 4
+//     loop 1 invariant len(a.name) == 4
